@@ -24,6 +24,7 @@ void prop(DP &dp, const ref::Bytes &sched, Ctx &ctx) {
 	Normal n;
 	NormalOpts o;
 	bool faulty = dp.chance(128);
+	o.gen.allow_zeropad = true;
 	o.gen.wide_dcc = true;      // DCC address high bytes over the full byte range: sharing is decided on the exact value
 	o.present_mode = dp.chance(128) ? 2 : 0;
 	n.prepare(dp, sched, o);
